@@ -116,6 +116,7 @@ def run_one(case, tally):
             finished = h.wait_done(6.0)
         elif phase == "shutdown":
             ok = h.wait_event(lambda e: e[2] == "app" and e[3] == "send." and True, 3.0)
+            h.wait_ready()
             socks = []
             if case["activity"] == "inflight":
                 s = h.connect()
@@ -139,6 +140,7 @@ def run_one(case, tally):
                 s.close()
         else:  # state isolation
             h.wait_event(lambda e: e[2] == "app" and e[3] == "send.", 3.0)
+            h.wait_ready()
             for path in (b"/mutate", b"/t2", b"/t3"):
                 s = h.connect()
                 s.sendall(b"GET %s HTTP/1.1\r\nHost: h\r\n\r\n" % path)
